@@ -36,7 +36,8 @@ PROBES = ["rejected_assignment_after_accepted_ones", "upstream_with_hyphen_reder
           "epoch_added_to_upstream_containing_colon", "trailing_newline_string",
           "non_ascii_digit_epoch", "hyphen_without_valid_revision", "none_upstream",
           "rejected_construct", "rollback_checked_on_other_handles", "empty_string_optional_part",
-          "operation_retried", "long_run_of_distinct_versions_in_one_process"]
+          "operation_retried", "long_run_of_distinct_versions_in_one_process",
+          "step_without_looking_at_the_objects"]
 
 LETTERS = "abcdefghijklmnopqrstuvwxyzABCDEFGHIJKLMNOPQRSTUVWXYZ"
 DIG = "0123456789"
@@ -156,9 +157,15 @@ def generate(seed, run, tier):
     kinds = ["new"] * w_new + ["set"] * w_set + ["read"] * w_read + ["copy"] * w_copy + \
         ["again"] * w_again
     steps = [{"h": 0, "op": "new", "s": _gen_part(rq, "full")}]
+    # reading an object is itself a call on it: how often the clients look at the objects
+    # is part of the schedule (results and exceptions of the operations are always checked,
+    # everything is read at the end)
+    quiet_rate = rs.choice([0.0, 0.0, 0.5, 1.0])
     for _ in range(nsteps):
         k = rq.choice(kinds)
         st = {"h": rq.randrange(nh), "op": k}
+        if rq.random() < quiet_rate:
+            st["quiet"] = True
         if k == "again":
             # the previous construction / assignment is issued once more (a retry), on the
             # same or on another handle
@@ -340,7 +347,8 @@ def execute(case):
             if val == "" and attr in ("epoch", "debian_revision", "debian_version"):
                 out.probe("empty_string_optional_part")
             wants = [None if a is None else decompose(a) for a in alts]
-            before = [None if x is None else _obs(x) for x in sut]
+            quiet = bool(st.get("quiet")) and len(wants) == 1
+            before = None if quiet else [None if x is None else _obs(x) for x in sut]
             try:
                 setattr(sut[k], attr, val)
                 res = "ok"
@@ -350,7 +358,14 @@ def execute(case):
                 res = type(ex).__name__
             log.add(si, k, "set", attr, val, res)
             inter.append((k, "set:" + attr, _argclass(val)))
-            if res == "ok":
+            if res == "ok" and quiet:
+                accepted += 1
+                if wants[0] is None:
+                    raise Violation("invalid-assignment-accepted", "set:" + attr,
+                                    {"step": si, "value": val, "model_before": [e, u, r],
+                                     "got": _obs(sut[k]), "acceptable": [None]})
+                model[k] = wants[0]
+            elif res == "ok":
                 accepted += 1
                 try:
                     got = _obs(sut[k])
@@ -379,7 +394,7 @@ def execute(case):
                     raise Violation("valid-assignment-rejected", "set:" + attr,
                                     {"step": si, "value": val, "model_before": [e, u, r],
                                      "would_be": alts})
-                after = [None if x is None else _obs(x) for x in sut]
+                after = None if quiet else [None if x is None else _obs(x) for x in sut]
                 if after != before:
                     raise Violation("rejected-assignment-changed-the-object", "set:" + attr,
                                     {"step": si, "value": val, "before": before, "after": after})
@@ -390,8 +405,12 @@ def execute(case):
         else:
             continue
         out.steps += 1
-        check_all(si, op if op != "set" else "set:" + st["attr"])
+        if st.get("quiet") and op != "churn":
+            out.probe("step_without_looking_at_the_objects")
+        else:
+            check_all(si, op if op != "set" else "set:" + st["attr"])
         out.states.add(stable_hash(model))
+    check_all(len(case["trace"]), "end")
     out.digest = log.digest()
     out.interleaving = stable_hash(inter)
     out.nontrivial = accepted > 0 and rejected > 0
